@@ -777,12 +777,21 @@ def check_log(chk, cases, cap):
                 viol = "sample_rate <= 0 but a record was emitted (c19_sampling_rate0)"
             if rate >= 1 and not emitted:
                 viol = "sample_rate >= 1 but the decision was dropped (c19_sampling_rate1)"
-        elif not kw.get("category_sampling_rates"):
+        else:
             pl = c["payload"]
             deny = str(pl.get("decision", "")) == "deny" or not bool(pl.get("allowed", False))
             pwo = bool(pl.get("obligations") or [])
-            if (deny or pwo) and not emitted:
+            cat = "deny" if deny else "permit_with_obligations" if pwo else "permit"
+            default_rates = not kw.get("category_sampling_rates")
+            strat = kw.get("category_sampling_rates") or {"deny": 1.0, "permit_with_obligations": 1.0}
+            eff = float(strat.get(cat, kw.get("sample_rate", 1.0)))
+            chk.count("log:smart:cat=" + cat + (":default-rates" if default_rates else ":given-rates"))
+            if default_rates and cat != "permit" and not emitted:
                 viol = "smart sampling with default rates dropped a deny / permit-with-obligations (c19_sampling_smart_default)"
+            elif eff >= 1 and not emitted:
+                viol = "smart sampling: the category's rate is >= 1 but the decision was dropped (c19_sampling_smart_rate1)"
+            elif eff <= 0 and emitted:
+                viol = "smart sampling: the category's rate is <= 0 but a record was emitted (c19_sampling_smart_rate0)"
         # ---- caller's env object
         env_before = c["payload"].get("env")
         env_after = got["payload_after"].get("env")
